@@ -29,7 +29,8 @@ TAMPER_OPS = {"mul", "div", "inv0", "is_zero", "is_equal", "is_equal_to_fixed", 
 GS_OPS = [("mul", []), ("is_zero", []), ("is_equal", []), ("is_not_equal", []), ("inv0", []), ("inv", []), ("select", []), ("cond_swap", []),
           ("and", [2]), ("xor", [2]), ("or", [3]), ("and", [3]), ("not", []), ("add_and_mul", [1, 2, 3, 4, 1]), ("add_and_mul", [0, 1, 0, 2, 3]),
           ("is_equal_to_fixed", [3]), ("is_equal_to_fixed", [0]), ("div", []), ("lincomb", [1, 2, 1, 0]), ("lincomb", [4, 0, 3, 2]),
-          ("add", []), ("sub", []), ("neg", []), ("square", []), ("add_constant", [3]), ("mul_by_constant", [4])]
+          ("add", []), ("sub", []), ("neg", []), ("square", []), ("add_constant", [3]), ("mul_by_constant", [4]),
+          ("arith_src", [2, 1, 3, 1, 1]), ("arith_src", [2, 1, 3, 2, 1]), ("arith_src", [2, 1, 2, 0, 0]), ("arith_src", [0, 0, 0, 1, 0]), ("arith_src", [1, 0, 0, 2, 0])]
 GS_SLOW = [("sgn0", []), ("to_le_bits", [3, 1])]
 
 
